@@ -76,6 +76,14 @@ type gen struct {
 	efSeq     int
 	ambient   bool
 	kube      []string
+	gwTarget  map[int]int
+	vsRoutes  []vsRouteRef // named http routes of VirtualServices on hosts that are services: targets for route-level EnvoyFilters
+}
+
+type vsRouteRef struct {
+	host  string
+	port  int
+	route string
 }
 
 func newGen(r *wire.Rng, malformed bool) *gen {
@@ -193,8 +201,13 @@ func (g *gen) gatewayService() {
 		Ports: []portDesc{{"http2", 80, "HTTP2"}, {"https", 443, "HTTPS"}, {"tcp", 9000, "TCP"}, {"tls", 15443, "TLS"}}}
 	g.svcs = append(g.svcs, d)
 	g.noteHost(h, d.Ports)
+	// the usual deployment: Service port 80 -> container port 8080, 443 -> 8443 (sometimes equal)
+	g.gwTarget = map[int]int{}
+	if g.ch(2, 3) {
+		g.gwTarget = map[int]int{80: 8080, 443: 8443}
+	}
 	for _, p := range d.Ports {
-		g.eps = append(g.eps, epDesc{Host: h, PortName: p.Name, IP: "10.2.0.1", Labels: map[string]string{"istio": "ingressgateway"}})
+		g.eps = append(g.eps, epDesc{Host: h, PortName: p.Name, IP: "10.2.0.1", Labels: map[string]string{"istio": "ingressgateway"}, TargetPort: g.gwTarget[p.Port]})
 	}
 }
 
@@ -469,7 +482,7 @@ func (g *gen) httpRoute(host string, gws []string) *networking.HTTPRoute {
 
 func (g *gen) virtualService() {
 	vs := &networking.VirtualService{}
-	nh := 1 + g.r.Intn(2)
+	nh := 1 + g.r.Intn(3)
 	seen := map[string]bool{}
 	for i := 0; i < nh; i++ {
 		h := g.someHost()
@@ -567,6 +580,13 @@ func (g *gen) virtualService() {
 		}
 	}
 	vs.ExportTo = g.exportTo()
+	for _, h := range vs.Hosts {
+		for _, p := range g.hostPorts[h] {
+			for _, r := range vs.Http {
+				g.vsRoutes = append(g.vsRoutes, vsRouteRef{h, p, r.Name})
+			}
+		}
+	}
 	g.add("VirtualService", g.ns(), g.name("vs"), vs, nil)
 }
 
@@ -669,14 +689,17 @@ func (g *gen) gateway() {
 		switch g.r.Intn(8) {
 		case 0, 1, 2:
 			s.Port = &networking.Port{Number: 80, Name: "http", Protocol: "HTTP"}
-			if g.ch(1, 4) {
-				s.Port.Number = 8080
+			if g.ch(1, 3) {
+				s.Port.Number = 8080 // the target port of Service port 80 (or an unrelated port)
 			}
 			if g.ch(1, 5) {
 				s.Tls = &networking.ServerTLSSettings{HttpsRedirect: true}
 			}
 		case 3, 4:
 			s.Port = &networking.Port{Number: 443, Name: "https", Protocol: "HTTPS"}
+			if g.ch(1, 3) {
+				s.Port.Number = 8443 // the target port of Service port 443 named directly
+			}
 			s.Tls = &networking.ServerTLSSettings{Mode: networking.ServerTLSSettings_SIMPLE, CredentialName: g.pick(credNames)}
 			switch g.r.Intn(5) {
 			case 0:
@@ -688,6 +711,9 @@ func (g *gen) gateway() {
 			}
 		case 5:
 			s.Port = &networking.Port{Number: 443, Name: "tls", Protocol: "TLS"}
+			if g.ch(1, 4) {
+				s.Port.Number = 8443
+			}
 			s.Tls = &networking.ServerTLSSettings{Mode: networking.ServerTLSSettings_PASSTHROUGH}
 			if g.ch(1, 3) {
 				s.Port.Number = 15443
@@ -817,7 +843,7 @@ func (g *gen) envoyFilter() {
 		p := &networking.EnvoyFilter_EnvoyConfigObjectPatch{Match: &networking.EnvoyFilter_EnvoyConfigObjectMatch{Context: ctx}, Patch: &networking.EnvoyFilter_Patch{}}
 		g.efSeq++
 		n := strconv.Itoa(g.efSeq)
-		switch g.r.Intn(9) {
+		switch g.r.Intn(11) {
 		case 0: // add a cluster (two filters may add the same one)
 			p.ApplyTo = networking.EnvoyFilter_CLUSTER
 			p.Patch.Operation = networking.EnvoyFilter_Patch_ADD
@@ -867,6 +893,40 @@ func (g *gen) envoyFilter() {
 			} else {
 				p.Patch.Operation = networking.EnvoyFilter_Patch_MERGE
 				p.Patch.Value = mustStruct(map[string]any{"name": "ef-chain"})
+			}
+		case 9, 10: // route-level patch that selects ONE virtual host (virtual hosts of one VirtualService share their route list)
+			ref := vsRouteRef{host: g.someHost(), port: 80}
+			if len(g.vsRoutes) > 0 {
+				ref = g.vsRoutes[g.r.Intn(len(g.vsRoutes))]
+			}
+			vh := &networking.EnvoyFilter_RouteConfigurationMatch_VirtualHostMatch{Name: ref.host + ":" + strconv.Itoa(ref.port)}
+			p.Match.Context = networking.EnvoyFilter_SIDECAR_OUTBOUND
+			if g.ch(1, 4) {
+				p.Match.Context = networking.EnvoyFilter_ANY
+			}
+			p.Match.ObjectTypes = &networking.EnvoyFilter_EnvoyConfigObjectMatch_RouteConfiguration{
+				RouteConfiguration: &networking.EnvoyFilter_RouteConfigurationMatch{Vhost: vh}}
+			switch g.r.Intn(5) {
+			case 0, 1:
+				p.ApplyTo = networking.EnvoyFilter_HTTP_ROUTE
+				p.Patch.Operation = networking.EnvoyFilter_Patch_REMOVE
+				if ref.route != "" && g.ch(2, 3) {
+					vh.Route = &networking.EnvoyFilter_RouteConfigurationMatch_RouteMatch{Name: ref.route}
+				}
+			case 2:
+				p.ApplyTo = networking.EnvoyFilter_HTTP_ROUTE
+				p.Patch.Operation = networking.EnvoyFilter_Patch_MERGE
+				p.Patch.Value = mustStruct(map[string]any{"request_headers_to_remove": []any{"x-ef-one-" + n}})
+				if ref.route != "" && g.ch(1, 2) {
+					vh.Route = &networking.EnvoyFilter_RouteConfigurationMatch_RouteMatch{Name: ref.route}
+				}
+			case 3:
+				p.ApplyTo = networking.EnvoyFilter_VIRTUAL_HOST
+				p.Patch.Operation = networking.EnvoyFilter_Patch_REMOVE
+			case 4:
+				p.ApplyTo = networking.EnvoyFilter_VIRTUAL_HOST
+				p.Patch.Operation = networking.EnvoyFilter_Patch_MERGE
+				p.Patch.Value = mustStruct(map[string]any{"request_headers_to_remove": []any{"x-ef-vh-" + n}})
 			}
 		case 8: // network filter
 			p.ApplyTo = networking.EnvoyFilter_NETWORK_FILTER
@@ -994,7 +1054,7 @@ func (g *gen) build() {
 			g.sidecar()
 		}
 	}
-	for i, k := 0, g.r.Intn(3); i < k; i++ {
+	for i, k := 0, g.r.Intn(4); i < k; i++ {
 		if g.ch(1, 2) {
 			g.envoyFilter()
 		}
